@@ -25,6 +25,9 @@ type kindTables struct {
 	cmpAssert  map[*ssa.Function]types.Type
 	cmpKinds   map[*ssa.Function]KindSet
 	cmpAccess  map[*ssa.Function][]string
+	cmpSym     map[*ssa.Function]*Sym   // the function value of the comparator (a closure carries its captured variables)
+	cmpBody    map[*ssa.Function][]string // problems of the comparator's body (C02)
+	cmpPart    map[*ssa.Function]bool     // module functions that read the value on behalf of a comparator (func(reflect.Value) T accessors)
 	problems   []string
 }
 
@@ -82,7 +85,7 @@ func isCoercion(fn *ssa.Function) bool {
 
 func buildKindTables(prog *Program, a *Anchors) *kindTables {
 	kt := &kindTables{eq: map[int]*ssa.Function{}, coerceType: map[int]types.Type{}, coerceFn: map[int]string{}, cmpAssert: map[*ssa.Function]types.Type{},
-		cmpKinds: map[*ssa.Function]KindSet{}, cmpAccess: map[*ssa.Function][]string{}}
+		cmpKinds: map[*ssa.Function]KindSet{}, cmpAccess: map[*ssa.Function][]string{}, cmpSym: map[*ssa.Function]*Sym{}, cmpBody: map[*ssa.Function][]string{}, cmpPart: map[*ssa.Function]bool{}}
 	// equality table
 	pk := paramSym(a.EqTable.Params[0])
 	for k := 0; k < nKinds; k++ {
@@ -102,6 +105,15 @@ func buildKindTables(prog *Program, a *Anchors) *kindTables {
 		case res.K == sFunc:
 			f, _ := res.V.(*ssa.Function)
 			kt.eq[k] = f
+			kt.cmpSym[f] = res
+		case res.K == sClosure:
+			// a comparator built by a (generic) constructor: the closure's function, with what it captured
+			if f, _ := ps.funcOfSym(res); f != nil {
+				kt.eq[k] = f
+				kt.cmpSym[f] = res
+			} else {
+				kt.problems = append(kt.problems, "equality table: result for kind "+kindNames[k]+" is a closure that cannot be resolved")
+			}
 		default:
 			kt.problems = append(kt.problems, "equality table: result for kind "+kindNames[k]+" is not a function constant: "+res.Key())
 		}
@@ -144,35 +156,89 @@ func buildKindTables(prog *Program, a *Anchors) *kindTables {
 			kt.problems = append(kt.problems, "coercion table: unexpected result for kind "+kindNames[k]+": "+res.Key())
 		}
 	}
-	// comparators
+	// comparators: decided on the comparator's path with its captured variables bound (an accessor handed to a generic
+	// constructor is followed): what the literal is asserted to, how the value is read, what is compared
 	seen := map[*ssa.Function]bool{}
 	for _, f := range kt.eq {
 		if f == nil || seen[f] {
 			continue
 		}
 		seen[f] = true
+		if len(f.Params) != 2 {
+			kt.problems = append(kt.problems, "comparator "+f.Name()+" does not take (literal, value)")
+			continue
+		}
+		ps := NewPathSim(prog)
+		ps.Inline = func(c *ssa.Function) bool { return c != f && (prog.InModule(c) || isSynthetic(c)) && !recursive(prog, c) }
+		first, second := paramSym(f.Params[0]), paramSym(f.Params[1])
+		start := newState()
+		if kt.cmpSym[f] != nil && kt.cmpSym[f].K == sClosure && prog.SSA != nil {
+			start = prog.Globals().st // what the closure captured was set up by the package initialiser
+		}
+		before := len(start.events)
+		sums := ps.ApplyClosure(start, kt.cmpSym[f], []*Sym{first, second})
 		adm := ksAll
-		for _, b := range f.Blocks {
-			for _, ins := range b.Instrs {
-				switch x := ins.(type) {
-				case *ssa.TypeAssert:
-					if !x.CommaOk && x.X == ssa.Value(f.Params[0]) {
-						kt.cmpAssert[f] = x.AssertedType
-					}
-				case *ssa.Call:
-					callee := x.Call.StaticCallee()
-					if callee != nil && callee.Pkg != nil && callee.Pkg.Pkg.Path() == "reflect" && callee.Signature.Recv() != nil && len(x.Call.Args) > 0 && x.Call.Args[0] == ssa.Value(f.Params[1]) {
-						kt.cmpAccess[f] = append(kt.cmpAccess[f], callee.Name())
-						if req, ok := valueMethodReq[callee.Name()]; ok {
-							adm &= req
-						} else if !valueMethodSafe[callee.Name()] {
-							adm = 0
-						}
-					}
+		var body []string
+		if len(sums) != 1 {
+			body = append(body, fmt.Sprintf("comparator %s branches (%d paths)", f.Name(), len(sums)))
+		}
+		for _, sm := range sums {
+			for _, ev := range sm.Events()[before:] {
+				if ev.Instr == nil && !ev.Store && len(ev.Args) == 1 && ev.Res != nil && ev.Res.K == sTAValue && ev.Args[0].Key() == first.Key() {
+					kt.cmpAssert[f] = ev.Res.T
 				}
+				if ev.Inlined && ev.Callee != nil && prog.InModule(ev.Callee) && len(ev.Args) == 1 && ev.Args[0].Key() == second.Key() {
+					kt.cmpPart[ev.Callee] = true // an accessor of the module the comparator was built with: part of the comparator
+				}
+				if ev.Instr == nil || ev.Inlined || ev.Callee == nil {
+					continue
+				}
+				callee := ev.Callee
+				if callee.Pkg != nil && callee.Pkg.Pkg.Path() == "reflect" && callee.Signature.Recv() != nil && len(ev.Args) > 0 && ev.Args[0].Key() == second.Key() {
+					kt.cmpAccess[f] = append(kt.cmpAccess[f], callee.Name())
+					if req, ok := valueMethodReq[callee.Name()]; ok {
+						adm &= req
+					} else if !valueMethodSafe[callee.Name()] {
+						adm = 0
+					}
+				} else {
+					body = append(body, "comparator "+f.Name()+" calls "+callee.String())
+				}
+			}
+			// the result: literal.(T) == accessor(value), the accessor's result narrowed at most from float64 to float32
+			if sm.Ret == nil || len(sm.Results) != 1 {
+				body = append(body, "comparator "+f.Name()+" has an unexpected result shape")
+				continue
+			}
+			res := sm.Results[0]
+			if res.K != sCmp || res.Op != token.EQL {
+				body = append(body, "comparator "+f.Name()+" does not return one equality comparison: "+shortKey(res))
+				continue
+			}
+			l, rv := res.A, res.B
+			if !(l.K == sTAValue && l.A.Key() == first.Key()) {
+				l, rv = rv, l
+			}
+			if !(l.K == sTAValue && l.A.Key() == first.Key()) {
+				body = append(body, "comparator "+f.Name()+" does not compare the literal asserted to its type")
+				continue
+			}
+			for rv != nil && rv.K == sConvert {
+				from, _ := rv.A.T.Underlying().(*types.Basic)
+				to, _ := rv.T.Underlying().(*types.Basic)
+				if from != nil && to != nil && !(from.Kind() == types.Float64 && to.Kind() == types.Float32) && from.Kind() != to.Kind() {
+					body = append(body, fmt.Sprintf("comparator %s converts %s to %s before comparing", f.Name(), from, to))
+				}
+				rv = rv.A
+			}
+			if cf, _ := calleeOfSym(rv); rv == nil || cf == nil || cf.Pkg == nil || cf.Pkg.Pkg.Path() != "reflect" {
+				body = append(body, "comparator "+f.Name()+" does not compare with the value read by a reflect accessor: "+shortKey(rv))
+			} else if ra := symArgs(sm.St, rv); len(ra) != 1 || ra[0].Key() != second.Key() {
+				body = append(body, "comparator "+f.Name()+" reads something other than the value it is given")
 			}
 		}
 		kt.cmpKinds[f] = adm
+		kt.cmpBody[f] = body
 	}
 	return kt
 }
@@ -504,6 +570,12 @@ func (c *c09ctx) analyseFunc(fn *ssa.Function) {
 				c.needsValue[f] = append(c.needsValue[f], "comparator call")
 				return
 			}
+			if isCmp && !nonnil && len(c.kt.cmpAccess[f]) > 0 && fs.K == sLoad && fs.A.K == sFree {
+				// the accessor a comparator was built with: resolved from what the package initialiser bound (kind tables)
+				c.record(ins, "dynamic-call", f.Name()+":dynamic-call:"+shortDesc(com.Value), true, "", st)
+				c.site(ins, "", "").note = "discharged by sibling-table agreement: the captured accessor is the one the tables were checked with"
+				return
+			}
 			c.record(ins, "dynamic-call", f.Name()+":dynamic-call:"+shortDesc(com.Value), nonnil, "function value "+fs.Key()+" is called without being proven non-nil", st)
 			return
 		}
@@ -579,6 +651,11 @@ func (c *c09ctx) analyseFunc(fn *ssa.Function) {
 			return
 		}
 		recv := ev.Args[0]
+		if c.kt.cmpPart[f] && len(f.Params) == 1 && recv.Key() == paramSym(f.Params[0]).Key() && onlyCalledAsValue(prog, f) {
+			c.record(ins, "reflect-value", f.Name()+":Value."+name, true, "", st)
+			c.site(ins, "", "").note = "discharged by sibling-table agreement: an accessor a comparator was built with"
+			return
+		}
 		if isCmp && len(f.Params) > 1 && recv.Key() == paramSym(f.Params[1]).Key() {
 			c.record(ins, "reflect-value", f.Name()+":Value."+name, true, "", st)
 			c.site(ins, "", "").note = "discharged by sibling-table agreement + comparator call sites"
@@ -1685,4 +1762,18 @@ func capturedParam(fv *ssa.FreeVar) bool {
 		}
 	}
 	return found
+}
+
+// onlyCalledAsValue: fn is never the target of a static call (it is only ever handed around as a value).
+func onlyCalledAsValue(prog *Program, fn *ssa.Function) bool {
+	n := prog.CG.Nodes[fn]
+	if n == nil {
+		return true
+	}
+	for _, e := range n.In {
+		if e.Site != nil && e.Site.Common().StaticCallee() == fn && !isSynthetic(e.Caller.Func) {
+			return false
+		}
+	}
+	return true
 }
